@@ -34,6 +34,34 @@ def o1(W, ob):
         ob.check(p in std['total'] or p in std['site'] or panics.external_default_total(t.callee), 'decode|unreviewed-external|%s' % p, 'external callee %s is reviewed / a total std function' % p,
                  'decode reaches `%s`, which is not in the reviewed totality table: any byte string must yield Ok or Err' % p,
                  '%s:%d (%s)' % (f.file, t.line, panics.short_fn(f)))
+    # shifts: `x << n` with n >= the width of x panics with overflow checks on and is masked (wraps) without -- wrong either way.  Every shift in the closure has an
+    # amount that a dominating guard (or a constant) shows to be below the width of the shifted value.
+    from .sem import cmp_atom, dnf_implies_atom
+    ns = 0
+    for f in fns:
+        cx = W.ctx(f)
+        G = W.guards(f)
+        for b in f.blocks:
+            t = b.term
+            if b.cleanup or t.k != 'assert' or t.msg.get('kind') != 'Overflow' or t.msg.get('op') not in ('Shl', 'Shr'):
+                continue
+            ns += 1
+            c = cx.expr_operand(t.cond)
+            ok, why = False, 'condition `%s` not understood' % key(c)[:80]
+            if c[0] == 'bin' and c[1] == 'Lt' and c[3][0] == 'int':
+                amount, width = c[2], c[3][1]
+                if amount[0] == 'int':
+                    ok = 0 <= amount[1] < width
+                    why = 'constant shift %d, width %d' % (amount[1], width)
+                else:
+                    g = G.stable_guard(b.id)
+                    ok = bool(g) and dnf_implies_atom(g, cmp_atom('Lt', amount, ('int', width), True))
+                    why = 'shift amount `%s`, width %d, guard %s' % (key(amount)[:40], width, dnf_str(g)[:160])
+            ob.check(ok, 'decode|shift-width|%s' % panics.short_fn(f), '%s: shift amount below the width of the shifted value (%s)' % (panics.short_fn(f), why),
+                     'a shift in %s can reach the width of the shifted value (%s): panic with overflow checks, silently wrapped without -- e.g. an accumulator narrowed '
+                     'while the guard on the shift amount stayed' % (panics.short_fn(f), why), where(f, t.line))
+    if W.fx.overflow_checks if hasattr(W.fx, 'overflow_checks') else True:
+        ob.require_count(ns, 2, 'shifts in the closure of decode')
     # every `?`/return of the closure yields a Result: no unwrap on the decode path (covered by the inventory); loops terminate:
     # each loop consumes input: the slice iterator / pos advance is checked below (O2)
 
@@ -450,4 +478,5 @@ OBLIGATIONS = [
     ('C14.M', 'must-call floor', 'the calls listed for this property in tables/must_call.json are made on every path from the entry of their function to a normal return (interprocedural must-call): a new early return, fast path or extra condition in front of one of them is reported; see rules/mustcall.py', mustcall.rule_for('C14')),
     ('C14.V', 'no unreviewed condition in the pinned helpers', 'for each helper whose body this property\'s rules pin (tables/condition_terms.json), the terms its path conditions are built from (fields, parameters, call results -- no constants, operators or local names) are a subset of the reviewed vocabulary: one more `if` in front of a pinned result (a lock that may time out, "only while an endpoint is running") is reported; see rules/vocab.py', vocab.rule_for('C14')),
     ('C14.K', 'call inventory', 'every reviewed call of a function that writes state (tables/call_edges.json, callers in the structs this property\'s rules read) is still made, directly or through helpers: a call deleted as redundant is reported; see rules/inventory.py', inventory.call_rule_for('C14')),
+    ('C14.A', 'expression inventory', 'every arithmetic expression handed to a call or stored in a field, and what every closure given to an iterator adaptor / collection method returns, is one of the reviewed expressions of its function (tables/expressions.json; linear / guard normal forms, no local names): a changed literal, operator, operand order, factor, predicate or sort key is reported; see rules/inventory.py', inventory.expr_rule_for('C14')),
 ]
